@@ -8,7 +8,7 @@ from harness.common import mk_element, run_soft, is_client_validation_fault, fak
 
 from spyne import Application, Service, rpc, ComplexModel
 from spyne.model.primitive import Integer, Unicode, Boolean, Decimal, Date, Double
-from spyne.model.complex import Array
+from spyne.model.complex import Array, XmlAttribute
 from spyne.model.fault import Fault
 from spyne.protocol.xml import XmlDocument
 from spyne.protocol.soap import Soap11
@@ -34,6 +34,8 @@ class SubSub(Sub):
 class Other(ComplexModel):
     __namespace__ = 'tns'
     z = Unicode
+    label = XmlAttribute(Unicode)        # outside XML an attribute member is a plain text member
+    rank = XmlAttribute(Integer)
 
 
 class OtherSub(Other):         # a second, unrelated hierarchy that has subclasses of its own
@@ -103,22 +105,26 @@ def unrelated_xsi(xt, scope='default=tns'):
 LENS = sorted(set(len(k) for m in RESOLVABLE.values() for k in m if len(k) <= 12))
 
 
-@harness('C04', tier_params={'quick': [(pn, L, sc) for pn in sorted(XPROTS) for L in LENS for sc in sorted(NSMAPS)],
-                             'thorough': [(pn, L, sc) for pn in sorted(XPROTS) for L in range(1, 15) for sc in sorted(NSMAPS)]},
-         label=lambda p: '%s len=%d %s' % p,
+DECLARED = {'Base': Base, 'Sub': Sub}
+
+
+@harness('C04', tier_params={'quick': [(pn, L, sc, dc) for pn in sorted(XPROTS) for L in LENS for sc in sorted(NSMAPS) for dc in sorted(DECLARED)],
+                             'thorough': [(pn, L, sc, dc) for pn in sorted(XPROTS) for L in range(1, 15) for sc in sorted(NSMAPS) for dc in sorted(DECLARED)]},
+         label=lambda p: '%s len=%d %s declared=%s' % p,
          functions=['spyne.protocol.xml.XmlDocument.from_element', 'spyne.protocol.xml.XmlDocument.complex_from_element'],
          bounds={'xsi:type': 'every string of the lengths of the resolvable type names (<= 12 printable chars); three '
                              'namespace scopes: default namespace = target namespace, default namespace foreign, no default'})
 def xsi_type_retag(sx, p):
     """a Base-typed element retagged with any xsi:type yields a Base (or registered subclass) instance or a
     validation fault - never an instance of an unrelated class or a primitive, in any namespace scope"""
-    pname, L, scope = p
+    pname, L, scope, dc = p
+    decl = DECLARED[dc]         # the declared class may itself be a derived class: its ancestors are not admissible either
     prot = XPROTS[pname]
     nsmap = NSMAPS[scope]
     xt = sx.text('xt', L)
     el = mk_element(sx, '{tns}x', attrib={XSI_TYPE: xt}, nsmap=nsmap,
                     children=[mk_element(sx, '{tns}a', text='5', nsmap=nsmap)])
-    out = run_soft(lambda: prot.from_element(CTX, Base, el))
+    out = run_soft(lambda: prot.from_element(CTX, decl, el))
     sx.observe('accepted', out.accepted)
     if not out.accepted:
         return is_client_validation_fault(out.fault)
@@ -126,7 +132,7 @@ def xsi_type_retag(sx, p):
     # accepted: whatever the name resolved to, the value is a Base or an instance of a subclass of it.  (How leniently a
     # QName is resolved is not C04's concern as long as no unrelated type can come out of it: the stricter "resolves in
     # the scope of the element" conjunct was dropped when spyne started to refuse unrelated classes, see DESIGN section 12.)
-    return out.value is None or isinstance(out.value, Base)
+    return out.value is None or isinstance(out.value, decl)
 
 
 # ---------------------------------------------------------------- JSON value kinds
@@ -194,7 +200,8 @@ def json_kinds(sx, p):
     return _admissible(got, ADMISSIBLE[slot])
 
 
-NESTED = {'base.a': (int,), 'base.u': (str,), 'bases[0].a': (int,), 'bases[0].u': (str,), 'bases[0]': (Base,)}
+NESTED = {'base.a': (int,), 'base.u': (str,), 'bases[0].a': (int,), 'bases[0].u': (str,), 'bases[0]': (Base,),
+          'other.label': (str,), 'other.rank': (int,)}
 
 
 @harness('C04', params=[(pos, kind) for pos in sorted(NESTED) for kind in KINDS], label=lambda p: 'pos=%s kind=%s' % p,
@@ -207,7 +214,9 @@ def json_kinds_nested(sx, p):
     """the same guarantee at nested positions: inside a nested object and inside array elements"""
     pos, kind = p
     v = _value_of_kind(sx, kind, 'v')
-    if pos.startswith('base.'):
+    if pos.startswith('other.'):
+        doc = {'other': {pos[6:]: v}}
+    elif pos.startswith('base.'):
         doc = {'base': {pos[5:]: v}}
     elif pos == 'bases[0]':
         doc = {'bases': [v, {'a': 1}]}
@@ -221,7 +230,11 @@ def json_kinds_nested(sx, p):
     if not out.accepted:
         return is_client_validation_fault(out.fault)
     h = out.value
-    if pos.startswith('base.'):
+    if pos.startswith('other.'):
+        if not isinstance(h.other, Other):
+            return _admissible(h.other, (Other,))
+        got = getattr(h.other, pos[6:])
+    elif pos.startswith('base.'):
         got = getattr(h.base, pos[5:]) if isinstance(h.base, Base) else h.base
         if not isinstance(h.base, Base):
             return _admissible(h.base, (Base,))
@@ -323,7 +336,11 @@ def dictdoc_binary_scalar(sx, p):
     if not out.accepted:
         return is_client_validation_fault(out.fault)
     h = out.value
-    if pos.startswith('base.'):
+    if pos.startswith('other.'):
+        if not isinstance(h.other, Other):
+            return _admissible(h.other, (Other,))
+        got = getattr(h.other, pos[6:])
+    elif pos.startswith('base.'):
         got = getattr(h.base, pos[5:])
     elif pos.startswith('bases[0].'):
         got = getattr(h.bases[0], pos.split('.')[1])
